@@ -509,9 +509,10 @@ pub fn run(repo: &str, unit_path: &str, canary: bool) -> std::result::Result<Run
                         return Err(format!("lost-anchor //@at {:?} in {target}", a));
                     }
                 }
+                // a loop spec whose loop no longer exists is not fatal (the body is verified as it stands); it is logged
                 for n in loops.keys() {
                     if *n >= mk.next_loop {
-                        return Err(format!("lost-anchor //@loop {n} in {target} (body has {} loops)", mk.next_loop));
+                        unused_local.push(json!({"fn": target, "loop_spec_without_loop": n}));
                     }
                 }
                 // pass 2: rewrites
@@ -577,7 +578,7 @@ pub fn run(repo: &str, unit_path: &str, canary: bool) -> std::result::Result<Run
                 let mut attr_lines: Vec<String> = vec![];
                 {
                     let mut k = em.out.len();
-                    while k > 0 && em.out[k - 1].trim_start().starts_with("#[") {
+                    while k > 0 && em.out[k - 1].trim_start().starts_with("#[") && em.out[k - 1].trim_end().ends_with(']') {
                         attr_lines.insert(0, em.out[k - 1].clone());
                         k -= 1;
                     }
